@@ -1,6 +1,6 @@
 (* C29 — graph exports are well-formed for any model and metamodel. *)
 From Coq Require Import String.
-From TxV Require Import Core.Base Model.ExportDefs Gen.SrcExport Model.Export Model.ExportWalk Model.ExportMeta Proofs.ExportProofs Proofs.ExportDocProofs Proofs.ExportWalkProofs Proofs.ExportMetaProofs.
+From TxV Require Import Core.Base Model.ExportDefs Gen.SrcExport Model.Export Model.ExportWalk Model.ExportMeta Proofs.ExportProofs Proofs.ExportDocProofs Proofs.ExportWalkProofs Proofs.ExportMetaProofs Proofs.ExportMetaCountProofs.
 
 (* dot_escape is the replacement chain translated from textx/export.py.  For every string s, the text
    <quote> dot_escape s <quote> rest  is scanned by the DOT string scanner as exactly one quoted string
@@ -264,3 +264,28 @@ Example C29_mm_nonvacuous :
   /\ map has_node cl = [true; true; true; false; false; false].
 Proof. vm_compute. repeat split; reflexivity. Qed.
 Print Assumptions C29_mm_nonvacuous.
+
+(* ---- PlantUML is line oriented.  With identifier names (names_ok, rows_ok) and a plain linetype (all evaluated
+   on every dumped case), exactly two lines of the modelled document start with '@': by C29_plantuml_shape they
+   are the first line @startuml and the last line @enduml, so each directive occurs exactly once - even when
+   the legend quotes a match rule such as '@enduml' (rule texts go through dot_escape, which never produces a
+   newline, and sit behind the row prefix). *)
+Theorem C29_plantuml_directives_once : forall cl lt rows,
+  names_ok cl = true -> rows_ok rows = true -> linetype_ok lt = true ->
+  at_lines true (mm_pu_doc cl lt rows) = 2%nat.
+Proof. exact pu_at_lines. Qed.
+Print Assumptions C29_plantuml_directives_once.
+
+Theorem C29_escape_no_newline : forall s, forallb (fun c => negb (N.eqb c 10)) (dot_escape s) = true.
+Proof. exact dot_escape_nonl. Qed.
+Print Assumptions C29_escape_no_newline.
+
+Example C29_plantuml_directives_nonvacuous :
+  let cl := [mkMCls (codes "Model") (codes "g.Model") KCommon [mkMAttr (codes "t") 1 M1 true false] [];
+             mkMCls (codes "Tok") (codes "g.Tok") KMatch [] []] in
+  let rows := [(codes "Tok", [64; 101; 110; 100; 117; 109; 108; 10; 64]%N)] in      (* rule text @enduml <newline> @ *)
+  names_ok cl = true /\ rows_ok rows = true /\ at_lines true (mm_pu_doc cl (Some (codes "ortho")) rows) = 2%nat
+  /\ at_lines true (pu_start ++ pu_end ++ pu_end) = 3%nat
+  /\ names_ok [mkMCls [64%N] [64%N] KCommon [] []] = false.
+Proof. vm_compute. repeat split; reflexivity. Qed.
+Print Assumptions C29_plantuml_directives_nonvacuous.
